@@ -409,7 +409,7 @@ def record_and_judge(run, cmd, args, label, replay_kind, aspects):
     if rep.get("infra"):
         raise Infra("%s reported infrastructure problems: %s" % (cmd, rep["infra"][:3]))
     run.absorb(rep, aspects)
-    run.judge_trace(t, "Trace_Store", label, replay_kind, timeout=1800)
+    run.judge_trace(t, "Trace_Store", label, replay_kind, timeout=3000)
 
 
 ADAPTER_ASPECTS = VALUE_ASPECTS | {"events"}
@@ -436,7 +436,7 @@ def c17(run, tier):
     rep = run.tlc_gen_replay("MC_Html", cfg, "dom-shapes", harness_args=["-out", trace], timeout=Q(tier, 400, 3000))
     run.absorb(rep, ADAPTER_ASPECTS)
     run.judge_trace(trace, "Trace_Store", "dom-shapes", "C17.trace", timeout=1800)
-    record_and_judge(run, "html-record", ["-n", str(Q(tier, 1500, 30000))], "tag-soup", "C17.trace", ADAPTER_ASPECTS)
+    record_and_judge(run, "html-record", ["-n", str(Q(tier, 1500, 9000))], "tag-soup", "C17.trace", ADAPTER_ASPECTS)
 
 
 def c09(run, tier):
